@@ -2284,6 +2284,20 @@ func c01Terms(r *Run, affFns map[*ssa.Function]bool) {
 					}
 				}
 				r.Check("C01.R7", "node-selector terms: true needs a matching term", pos, shortFunc(fn), "the term list matches only if some term matched (an empty list matches nothing)", goodT, detailT)
+				// converse: the terms are ORed — a mismatching term never decides; false only after the scan
+				goodO, detailO := okc, ""
+				for _, c := range cases {
+					if c.Result {
+						continue
+					}
+					for _, b := range c.P.Blocks {
+						if b != l.Header && l.In[b] {
+							goodO = false
+							detailO = "false is returned from inside the scan of the terms at " + r.Prog.Pos(instrPos(c.Ret))
+						}
+					}
+				}
+				r.Check("C01.R7", "node-selector terms are ORed", pos, shortFunc(fn), "no single term makes the match fail: false is returned only after every term was tried", goodO, detailO)
 			}
 		}
 	}
